@@ -13,6 +13,7 @@ changes what it computes refutes these theorems; one that keeps the meaning and 
 import PrimaiteModel.Model.RewardGraphLang
 import PrimaiteModel.Gen.RewardGraph
 import PrimaiteModel.Lemmas.RewardGraphTop
+import PrimaiteModel.Lemmas.RewardGraphCycle
 namespace Primaite.RewardGraph.Lang
 open Primaite.RewardGraph
 
@@ -233,6 +234,37 @@ theorem C10_gen_graph_functions_correct (g : Graph α) :
   · have hac : Acyclic g := fun u hp => h ⟨u, hp⟩
     obtain ⟨hd, hk⟩ := topoSort_depsFirst' g hac
     exact ⟨_, rfl, hd, hk⟩
+
+theorem not_acyclic_iff (g : Graph α) : ¬ Acyclic g ↔ ∃ u, Path g u u := by
+  unfold Acyclic
+  constructor
+  · intro h
+    apply Classical.byContradiction
+    intro hn
+    exact h (fun u p => hn ⟨u, p⟩)
+  · rintro ⟨u, p⟩ h
+    exact h u p
+
+/-- **the unfolding bound is immaterial**: at EVERY depth `d ≥ fuelFor g` (number of entries of the node universe + 1; so also for
+Python's own recursion, whenever the graph fits its recursion limit) the translated `graph_has_cycle` returns a truth value that is
+`True` exactly on the graphs with a cycle, and on every other graph the translated `topological_sort` returns a dependencies-first
+list containing every key. (At depth exhaustion the interpreter's call "does nothing and returns `None`" — this theorem shows no
+conclusion depends on that convention.) -/
+theorem C10_gen_graph_functions_correct_any_depth (g : Graph α) (d : Nat) (hd : fuelFor g ≤ d) :
+    (runFn g Primaite.Gen.RewardGraph.fn_graph_has_cycle d = .ok (.bool true) ↔ ∃ u, Path g u u) ∧
+    (∃ b, runFn g Primaite.Gen.RewardGraph.fn_graph_has_cycle d = .ok (.bool b)) ∧
+    ((¬ ∃ u, Path g u u) → ∃ l, runFn g Primaite.Gen.RewardGraph.fn_topological_sort d = .ok (.list l) ∧ DepsFirst g l ∧
+      ∀ k ∈ keys g, k ∈ l) := by
+  have hmu : mu g [] < d := Nat.lt_of_lt_of_le (mu_lt_fuelFor g) hd
+  rw [C10_gen_graph_has_cycle_depth, C10_gen_topological_sort_depth]
+  refine ⟨?_, ⟨_, rfl⟩, fun h => ?_⟩
+  · rw [← not_acyclic_iff, ← hasCycle_iff g d hmu]
+    constructor
+    · intro h; injection h with h; injection h
+    · intro h; rw [h]
+  · have hac : Acyclic g := fun u hp => h ⟨u, hp⟩
+    obtain ⟨hdf, hk⟩ := topoSort_depsFirst g hac d hmu
+    exact ⟨_, rfl, hdf, hk⟩
 
 /-! Non-vacuity: the interpreter really runs the translated bodies (a diamond with its top first; a 2-cycle), and a body that is NOT
 `topological_sort` (pre-order: `stack.append` before the neighbours) is told apart on the same diamond. -/
